@@ -260,7 +260,7 @@ func runC17(c *Ctx) {
 				if strings.HasPrefix(strings.TrimSpace(ln), "signature: ") {
 					nviol++
 					c.R.Violation("C17/"+name+"-build/"+strings.TrimPrefix(strings.TrimSpace(ln), "signature: C17/"), map[string]interface{}{
-						"what": "the exerciser tables linked into a " + name + " build differ from the canonical images (the default build's tables " + map[bool]string{true: "agree", false: "differ too"}[c.R.Violations() == 0] + ")",
+						"what":          "the exerciser tables linked into a " + name + " build differ from the canonical images (the default build's tables " + map[bool]string{true: "agree", false: "differ too"}[c.R.Violations() == 0] + ")",
 						"configuration": name, "child_output_head": out[:min(len(out), 1500)]})
 				}
 			}
